@@ -77,3 +77,85 @@ def transform_identity_returns_same_object(c, n):
     tf = c.matrix([[1, 0, 0], [0, 1, 0], [0, 0, 1]])
     r = c.call('path.transform', seg, tf)
     c.ensures('identity-returns-the-curve-itself', r is seg)
+
+
+# ---------------------------------------------------------------- paths: segment-wise action, joints
+
+from contracts.c05 import mkpath  # noqa: E402
+
+PATH_SHAPES = [{'kinds': k} for k in ['L', 'LQ', 'CL', 'QLC']]
+OPS = ['translated', 'rotated', 'scaled', 'scaled_uniform', 'transform']
+
+
+@contract('C10', 'path.transform_segments_together',
+          params=[dict(p, op=o) for p in PATH_SHAPES for o in OPS], level='per-shape')
+def path_ops_act_segmentwise_and_keep_joints(c, kinds, op):
+    path, segs, pts = mkpath(c, kinds)
+    n = len(segs)
+    t = c.real('t')
+    if op == 'translated':
+        z = c.cplx('z')
+        r = c.callm(path, 'translated', z)
+        img = lambda w: w + z
+    elif op == 'rotated':
+        degs, o = c.real('degs'), c.cplx('o')
+        co, si = c.cos_sin_deg(degs)
+        r = c.callm(path, 'rotated', degs, o)
+        img = lambda w: ops.cx(co, si) * (w - o) + o
+    elif op in ('scaled', 'scaled_uniform'):
+        sx, o = c.real('sx'), c.cplx('o')
+        sy = c.real('sy') if op == 'scaled' else sx
+        r = c.callm(path, 'scaled', sx, sy, o) if op == 'scaled' else c.callm(path, 'scaled', sx, origin=o)
+        img = lambda w: o + ops.cx(sx * ops.re(w - o), sy * ops.im(w - o))
+    else:
+        M = [[c.real('m%d%d' % (i, j)) for j in range(3)] for i in range(2)]
+        c.assume(ops.Not(ops.And(ops.eq(M[0][0], 1), ops.eq(M[0][1], 0), ops.eq(M[0][2], 0),
+                                 ops.eq(M[1][0], 0), ops.eq(M[1][1], 1), ops.eq(M[1][2], 0))))
+        r = c.call('path.transform', path, c.matrix(M + [[0, 0, 1]]))
+        img = lambda w: affine(M, w)
+    rs = list(c.items(r))
+    c.ensures('same-number-of-segments', len(rs) == n)
+    for i in range(n):
+        c.ensures('segment-%d-is-the-image-of-segment-%d' % (i, i),
+                  ops.And(c.isinstance(rs[i], {2: 'path.Line', 3: 'path.QuadraticBezier', 4: 'path.CubicBezier'}[len(pts[i])]),
+                          ops.eq(bez.bern(_bp(c, rs[i]), t), img(bez.bern(pts[i], t)))))
+    for i in range(n):
+        j = (i + 1) % n
+        was = ops.eq(pts[i][-1], pts[j][0])
+        now = ops.eq(_bp(c, rs[i])[-1], _bp(c, rs[j])[0])
+        c.ensures('joint-%d->%d-still-coincides%s' % (i, j, '(closing)' if j == 0 else ''), ops.Implies(was, now))
+
+
+# ---- "joints that coincided exactly before still coincide exactly after": float ==, decided in
+# EUF mode (DESIGN.md 1.8b): arithmetic operators are uninterpreted, so an equality proved here
+# holds bit for bit; equalities that need algebra are not provable and are reported.
+
+EUF_SHAPES = [{'kinds': k} for k in ['LC', 'QLC', 'CC']]
+
+
+@contract('C10', 'path.transform_segments_together',
+          params=[dict(p, op=o, _euf=True) for p in EUF_SHAPES for o in OPS], level='per-shape',
+          note='EUF back end: equality by determinism of the IEEE operations')
+def closed_path_stays_exactly_closed(c, kinds, op):
+    path, segs, pts = mkpath(c, kinds, continuous=True)
+    # close it: the last segment ends exactly where the first starts
+    c.set(segs[-1], 'end', pts[0][0])
+    path = c.new('path.Path', *segs)
+    n = len(segs)
+    if op == 'translated':
+        r = c.callm(path, 'translated', c.cplx('z'))
+    elif op == 'rotated':
+        r = c.callm(path, 'rotated', c.real('degs'), c.cplx('o'))
+    elif op == 'scaled':
+        r = c.callm(path, 'scaled', c.real('sx'), c.real('sy'), c.cplx('o'))
+    elif op == 'scaled_uniform':
+        r = c.callm(path, 'scaled', c.real('sx'), origin=c.cplx('o'))
+    else:
+        M = [[c.real('m%d%d' % (i, j)) for j in range(3)] for i in range(2)]
+        c.assume(ops.ne(M[0][2], 0))
+        r = c.call('path.transform', path, c.matrix(M + [[0, 0, 1]]))
+    rs = list(c.items(r))
+    for i in range(n):
+        j = (i + 1) % n
+        c.ensures('joint-%d->%d-coincides-exactly%s' % (i, j, '(closing)' if j == 0 else ''),
+                  c.exact_eq(c.get(rs[i], 'end'), c.get(rs[j], 'start')))
